@@ -1145,6 +1145,14 @@ func (e *SpecEnv) evalCall(x *SX) (Term, error) {
 	case "str":
 		// int -> decimal string
 		return Term{sx("int2str", args[0].S), SStr}, nil
+	case "ratparses", "ratnum", "ratden":
+		// the rational number a decimal/fraction/exponent text denotes (what big.Rat.SetString parses), uninterpreted
+		ratStrDecls(e.ss())
+		so := SInt
+		if x.Name == "ratparses" {
+			so = SBool
+		}
+		return Term{sx(x.Name, args[0].S), so}, nil
 	case "bytestr":
 		// bytestr(b): the string a byte slice converts to (uninterpreted; string([]byte(s)) == s)
 		if args[0].Sort.Kind != KSlice {
